@@ -187,13 +187,17 @@ def build_mask(case):
     return aa.Mask2D(mask=m.copy(), pixel_scales=tuple(case["pixel_scales"]), origin=tuple(case["origin"]))
 
 
-def build_imaging(case, mask=None):
+def _noown(desc, arr):
+    return arr
+
+
+def build_imaging(case, mask=None, own=_noown):
     import autoarray as aa
     mask = mask if mask is not None else build_mask(case)
     k = np.asarray(case["kernel"], dtype=float)
-    psf = aa.Kernel2D.no_mask(values=k.copy(), pixel_scales=tuple(case["pixel_scales"]), normalize=False)
-    data = aa.Array2D(values=np.asarray(case["data"], dtype=float), mask=mask)
-    noise = aa.Array2D(values=np.asarray(case["noise"], dtype=float), mask=mask)
+    psf = aa.Kernel2D.no_mask(values=own("psf-values", k.copy()), pixel_scales=tuple(case["pixel_scales"]), normalize=False)
+    data = aa.Array2D(values=own("data-values", np.asarray(case["data"], dtype=float).copy()), mask=mask)
+    noise = aa.Array2D(values=own("noise-values", np.asarray(case["noise"], dtype=float).copy()), mask=mask)
     ds = aa.Imaging(data=data, noise_map=noise, psf=psf, use_normalized_psf=False)
     return ds
 
@@ -249,7 +253,7 @@ def delaunay_vertices(spec, src):
     return np.asarray(verts), min(dy, dx) * 0.4
 
 
-def build_linear_obj(spec, mask, adapt_data=None):
+def build_linear_obj(spec, mask, adapt_data=None, own=_noown):
     """Returns (linear_obj, info dict)."""
     import autoarray as aa
     from autoarray.inversion.linear_obj.func_list import AbstractLinearObjFuncList
@@ -271,7 +275,7 @@ def build_linear_obj(spec, mask, adapt_data=None):
                 return self._mm
 
         grid = aa.Grid2D.from_mask(mask=mask)
-        obj = VPFuncList(grid=grid, mapping_matrix=mat.copy(), regularization=build_reg(spec.get("reg")))
+        obj = VPFuncList(grid=grid, mapping_matrix=own("func-matrix", mat.copy()), regularization=build_reg(spec.get("reg")))
         info["mapping_matrix_in"] = mat
         return obj, info
     osamp = over_sampler_for(mask, spec["sub"])
@@ -280,7 +284,7 @@ def build_linear_obj(spec, mask, adapt_data=None):
     src = apply_warp(base, spec["warp"], centre)
     info["source_grid"] = src
     info["over_sampler"] = osamp
-    src_grid = aa.Grid2DIrregular(values=src.copy())
+    src_grid = aa.Grid2DIrregular(values=own("source-grid", src.copy()))
     if spec["type"] == "rect":
         mesh = aa.Mesh2DRectangular.overlay_grid(grid=src_grid, shape_native=tuple(spec["shape"]))
         min_sep = float(min(mesh.pixel_scales))
@@ -288,7 +292,7 @@ def build_linear_obj(spec, mask, adapt_data=None):
     else:
         verts, min_sep = delaunay_vertices(spec, src)
         info["vertices"] = verts
-        mesh = aa.Mesh2DDelaunay(values=verts.copy())
+        mesh = aa.Mesh2DDelaunay(values=own("delaunay-vertices", verts.copy()))
         image_mesh = None
     info["mesh"] = mesh
     info["min_sep"] = min_sep
@@ -298,17 +302,17 @@ def build_linear_obj(spec, mask, adapt_data=None):
     return mapper, info
 
 
-def build_scene(case, adapt_values=None):
+def build_scene(case, adapt_values=None, own=_noown):
     import autoarray as aa
     s = Scene()
     s.mask = build_mask(case)
-    s.dataset = build_imaging(case, s.mask)
+    s.dataset = build_imaging(case, s.mask, own=own)
     adapt = None
     if adapt_values is not None:
         adapt = aa.Array2D(values=np.asarray(adapt_values, dtype=float), mask=s.mask)
     s.objs, s.infos = [], []
     for spec in case.get("objs", []):
-        o, info = build_linear_obj(spec, s.mask, adapt)
+        o, info = build_linear_obj(spec, s.mask, adapt, own=own)
         s.objs.append(o)
         s.infos.append(info)
     return s
